@@ -66,12 +66,18 @@ def partitions(tier):
                                       oldlens=[0, 2], lens=[0, 1, 3], long=False)))
         for oldlens, lens, tag in (([3], [255, 300], "1to3"), ([255, 260], [3, 254], "3to1"),
                                    ([255], [256, "cap"], "3to3")):
+            if tier == "quick" and nulls in (1, 2) and tag == "1to3":
+                # the known finding (length field across a block boundary) makes
+                # the reader follow a symbolic stale length: thousands of paths;
+                # the 3to3 partitions exercise the same defect in the quick tier
+                continue
             parts.append(dict(name="t1:dyn:%s:%s" % (prefix or "-", tag), fn="t1",
                               params=dict(hr=[0x12, 0x4C], size=512, prefix=prefix, rsv=[],
                                           oldlens=oldlens, lens=lens, long=True)))
     parts.append(dict(name="t1:dyn:LM:mixed", fn="t1",
                       params=dict(hr=[0x12, 0x00], size=512, prefix="LM", rsv=[[122, 6], [120, 2]],
-                                  oldlens=[0, 9], lens=[4, 100, 255], long=True)))
+                                  oldlens=[0, 9], lens=[4, 100] + ([255] if tier != "quick" else []),
+                                  long=True)))
     # NDEF TLV offsets 0..3 modulo the 4-byte page: leading NULL TLVs
     for nulls in range(4):
         prefix = "N" * nulls
@@ -101,3 +107,5 @@ BOUNDS = {"quick": "T2: 48- and 496-byte data areas, NDEF TLV at offsets 0..3 mo
           "thorough": "as quick with every new length for the 48-byte area"}
 OUTSIDE = ["torn writes inside one command", "tags that change memory on a failed command"]
 ASSUMPTIONS = ["power cut = the tag stops answering before a state-changing command; memory keeps the effect of all earlier commands"]
+
+LIMITS = {"thorough": dict(max_time=3000)}
